@@ -1,5 +1,5 @@
 Require Extraction.
 Require Import ExtrOcamlBasic.
-From SCMO Require Import Lib.Val Model.C03.
-Definition run := run_C03.
+From SCMO Require Import Lib.Val Model.C03 Model.C03x.
+Definition run := run_C03x.
 Extraction "c03_model.ml" run.
